@@ -843,12 +843,11 @@ func classify(c Case) core.Class {
 		}
 		if nc >= 1 && (v.MustAdmit || (v.MustReject && len(v.Reasons) == 1)) {
 			cl.NonTrivial = true
-			fp = append(fp, kind+"/"+peerKind(r.Peer))
+			fp = append(fp, kind)
 		}
 	}
-	fp = uniq(fp)
-	if len(fp) > 2 {
-		fp = fp[:2]
+	if len(fp) > 1 {
+		fp = fp[:1] // the first non-trivial request characterises the case
 	}
 	cl.Fingerprint = fmt.Sprintf("c=%s|redir=%v|%s|%s", bucket(nc), c.Cfg.BehindRedir, cfgFeatures(c.Cfg), strings.Join(fp, ","))
 	return cl
@@ -857,8 +856,8 @@ func classify(c Case) core.Class {
 func TestC12a(t *testing.T) {
 	core.Run(t, core.Spec[Case]{
 		Property: "C12", Sub: "a",
-		Rule: "listener configuration (0-4 URIs with/without query or the [\"\"] form, user agent set/unset, 0-4 request headers 'Name: value' incl. the ignored Connection/Accept-Encoding and values containing ': ' and ':', 0-3 response headers with values containing ':', redirector flag) on the real handlers.HTTP after Start(); 1-6 requests generated around that configuration: the canonical Demon request, or with one / several of {GET,PUT,HEAD, wrong path, extra query, path case, path suffix, header missing/wrong/case/truncated/extended, user agent wrong/missing/case, ignored header altered}, IPv4 and IPv6 peers, X-Forwarded-For present or not; body = valid registration. Oracle from the statement: admitted => all constraints hold; all hold => admitted with 200 + registration reply + every response header with its full value + ExternalIP = peer IP (or X-Forwarded-For iff redirector); otherwise 404 and no recorder event. Non-trivial: >=1 configured constraint and a request that satisfies all or violates exactly one; distinct = (constraint bucket, redirector, config feature, up to two request verdict kinds x peer family)",
-		Gen:   gen, Check: check, Classify: classify,
+		Rule: "listener configuration (0-4 URIs with/without query or the [\"\"] form, user agent set/unset, 0-4 request headers 'Name: value' incl. the ignored Connection/Accept-Encoding and values containing ': ' and ':', 0-3 response headers with values containing ':', redirector flag) on the real handlers.HTTP after Start(); 1-6 requests generated around that configuration: the canonical Demon request, or with one / several of {GET,PUT,HEAD, wrong path, extra query, path case, path suffix, header missing/wrong/case/truncated/extended, user agent wrong/missing/case, ignored header altered}, IPv4 and IPv6 peers, X-Forwarded-For present or not; body = valid registration. Oracle from the statement: admitted => all constraints hold; all hold => admitted with 200 + registration reply + every response header with its full value + ExternalIP = peer IP (or X-Forwarded-For iff redirector); otherwise 404 and no recorder event. Non-trivial: >=1 configured constraint and a request that satisfies all or violates exactly one; distinct = (constraint bucket, redirector, config feature, verdict kind of the first non-trivial request)",
+		Gen:  gen, Check: check, Classify: classify,
 		Assumptions: []string{
 			"requests are delivered in-process through GinEngine.ServeHTTP with canonical header names and trimmed values, as net/http's server delivers them",
 			"request header names that net/http treats specially (Host, Content-Length, User-Agent, X-Forwarded-For) and duplicate names are outside the configuration generator; Host is configured through HostHeader",
